@@ -25,9 +25,22 @@ def run_property(pid, tier, seed, source=None, quiet=False, with_controls=True):
     ctx = Ctx(pid, tier, seed, source)
     res = Result(pid, tier, seed, getattr(mod, "LEVEL", "proof"))
     ctx.res = res
-    if with_controls and hasattr(mod, "controls"):
-        mod.controls(ctx)
+    if with_controls:
+        from . import controls
+        controls.run_controls(res)          # AE conformance controls: a failure ends the run with exit 2
+        if hasattr(mod, "controls"):
+            mod.controls(ctx)
     mod.run(ctx)
+    if with_controls and tier == "thorough" and source is None:
+        # both-ways self-test of this property's checker against the current tree (in memory); reported, not gating
+        try:
+            from . import selftest
+            st = selftest.run(src=ctx.src, only=pid)
+            res.extra["selftest"] = st
+            for u in st["unexpected"]:
+                res.note(f"self-test: seeded change {u['seed']} expected {u['expected']} but the check gave {u['got']} ({u['detail']})")
+        except Exception as e:  # noqa: BLE001
+            res.note(f"self-test could not run: {type(e).__name__}: {e}")
     return res
 
 
